@@ -13,6 +13,8 @@ trv_core::install_clock_seam!();
 
 #[derive(Clone)]
 struct Tl {
+    /// builder calls issued as cancel_running_future(..) first, timeout second
+    flag_first: bool,
     cancel: bool,
     per_request: bool,
     callers: usize,
@@ -64,7 +66,7 @@ impl Scenario for Tl {
         "C06"
     }
     fn label(&self) -> String {
-        format!("timelimiter cancel={} per_request={} callers={} select_seed={}", self.cancel, self.per_request, self.callers, self.seed)
+        format!("timelimiter cancel={} per_request={} callers={} select_seed={}{}", self.cancel, self.per_request, self.callers, self.seed, if self.flag_first { " builder_order=flag_first" } else { "" })
     }
     fn callers(&self) -> usize {
         self.callers
@@ -75,10 +77,15 @@ impl Scenario for Tl {
     fn init(&self, w: &mut World) -> X {
         let inner = GatedInner::new(w.inner.clone());
         let start: Box<dyn FnMut(Req) -> CallerFut> = if self.per_request {
-            let layer = TimeLimiterLayer::builder()
-                .timeout_fn(|r: &Req| dur(timeout_of(true, r.key)))
-                .cancel_running_future(self.cancel)
-                .build();
+            fn per_req(r: &Req) -> Duration {
+                dur(timeout_of(true, r.key))
+            }
+            let f: fn(&Req) -> Duration = per_req;
+            let layer = if self.flag_first {
+                TimeLimiterLayer::builder().cancel_running_future(self.cancel).timeout_fn(f).build()
+            } else {
+                TimeLimiterLayer::builder().timeout_fn(f).cancel_running_future(self.cancel).build()
+            };
             let svc = layer.layer(inner);
             Box::new(move |req: Req| {
                 let mut s = svc.clone();
@@ -87,7 +94,11 @@ impl Scenario for Tl {
                 Box::pin(async move { map(f.await) })
             })
         } else {
-            let layer = TimeLimiterLayer::builder().timeout_duration(Duration::from_millis(20)).cancel_running_future(self.cancel).build();
+            let layer = if self.flag_first {
+                TimeLimiterLayer::builder().cancel_running_future(self.cancel).timeout_duration(Duration::from_millis(20)).build()
+            } else {
+                TimeLimiterLayer::builder().timeout_duration(Duration::from_millis(20)).cancel_running_future(self.cancel).build()
+            };
             let svc = layer.layer(inner);
             Box::new(move |req: Req| {
                 let mut s = svc.clone();
@@ -301,8 +312,10 @@ fn configs(tier: Tier) -> Vec<Tl> {
         for per_request in [false, true] {
             let seeds: Vec<u64> = if cancel { vec![1] } else { tier.pick(vec![1, 2], vec![1, 2, 3, 4]) };
             for seed in seeds {
-                v.push(Tl { cancel, per_request, callers: 2, max_ticks: tier.pick(4, 5), max_drops: 1, seed });
+                v.push(Tl { flag_first: false, cancel, per_request, callers: 2, max_ticks: tier.pick(4, 5), max_drops: 1, seed });
             }
+            // the same with the builder calls in the other order
+            v.push(Tl { flag_first: true, cancel, per_request, callers: 2, max_ticks: tier.pick(4, 5), max_drops: 1, seed: 1 });
         }
     }
     v
